@@ -17,7 +17,7 @@ def run(tier, seed):
     return run_kx(
         "C03", tier, seed,
         oracles=ORACLES,
-        capacities=[1] if tier == "quick" else [1, "default"],
+        capacities=[1],
         flavour="full" if tier == "quick" else "wide",
         opts_extra={"sparse_output_only": True, "recomputes": 0},
         rule="every kernel with a compressed output level x dimension vectors x every joint input structure "
